@@ -28,16 +28,18 @@ Definition est_case (c : nat * list (list Z) * model * model) : bool :=
                  end) after
   end.
 Definition lt_of (k : nat) : link_t := match k with O => DedupeOnly | 1%nat => LinkOnly | _ => LinkAndDedupe end.
-(* link type, table sizes, observed distinct matched pairs, recall, implementation (None = ValueError
-   "more observed matches than is consistent with supplied recall") *)
-Definition prior_run (c : nat * list nat * Z * Q * option Q) : bool :=
+(* link type, table sizes, observed distinct matched pairs, recall, implementation: (0, p) = prior p,
+   (1, _) = ValueError "more observed matches than is consistent with supplied recall",
+   (2, _) = ZeroDivisionError (no admissible pair at all) *)
+Definition prior_run (c : nat * list nat * Z * Q * (nat * Q)) : bool :=
   match c with (k, ns, obs, recall, impl) =>
     match cartesian (lt_of k) (map (fun n => inject_Z (Z.of_nat n)) ns) with
     | Some cart =>
         Qeq_bool cart (inject_Z (Z.of_nat (admissible_pairs (lt_of k) ns))) &&
         match prior_estimate (inject_Z obs) recall cart, impl with
-        | PriorOk p, Some q => qclose p q
-        | RecallInconsistent, None => true
+        | PriorOk p, (O, q) => qclose p q
+        | RecallInconsistent, (1%nat, _) => true
+        | PriorZeroDivision, (2%nat, _) => true
         | _, _ => false
         end
     | None => false
@@ -263,6 +265,8 @@ def run_prior(case):
         if "consistent with supplied recall" in str(e):
             return None
         raise
+    except ZeroDivisionError:
+        return "ZD"
     saved = lk.misc.save_model_to_json()
     assert saved["probability_two_random_records_match"] == lk._settings_obj._probability_two_random_records_match
     return Fraction(saved["probability_two_random_records_match"])
@@ -286,7 +290,7 @@ def prior_boundary(case, obs):
 
 def prior_term(case, obs, impl):
     ns = [len(t) for t in case["tables"]]
-    im = "None" if impl is None else f"(Some {coq_Q(impl)})"
+    im = "(1%nat, 0)" if impl is None else "(2%nat, 0)" if impl == "ZD" else f"(0%nat, {coq_Q(impl)})"
     return (f"({coq_nat(LTCODE[case['link_type']])}, {coq_list([coq_nat(n) for n in ns], 'nat')}, {coq_Z(obs)}, "
             f"{coq_Q(recall_of(case))}, {im})")
 
@@ -295,6 +299,10 @@ def prior_oracle(case, obs, impl):
     ns = [len(t) for t in case["tables"]]
     cart = len(admissible(case["link_type"], case["tables"]))
     recall = recall_of(case)
+    if cart == 0:
+        return [] if impl == "ZD" else [("no admissible pair: expected ZeroDivisionError", {"implementation": str(impl)})]
+    if impl == "ZD":
+        return [("ZeroDivisionError although admissible pairs exist", {"admissible_pairs": cart})]
     if obs > cart * recall:
         return [] if impl is None else [("recall inconsistent with the data was accepted", {"observed": obs, "admissible_pairs": cart, "recall": float(recall), "implementation": float(impl)})]
     want = Fraction(obs) / (recall * cart)
